@@ -390,7 +390,7 @@ def kw_strategy(name, first):
         parts["default_rounds"] = sval
         parts["min_desired_rounds"] = sval
         parts["max_desired_rounds"] = sval
-        parts["vary_rounds"] = st.sampled_from([0, 1, 3, "10%", 0.2, "30%", 0.5, "1", -1, 1.5, "0.1"])
+        parts["vary_rounds"] = st.sampled_from([0, 1, 3, "10%", 0.2, "30%", 0.5, "1", -1, 1.5, "0.1", "12.5%", "0.5%"])
     if "salt_size" in h.setting_kwds:
         lo, hi = h.min_salt_size, h.max_salt_size
         top = hi if hi is not None else 40
